@@ -31,6 +31,10 @@ pub struct Case {
     /// interpolation path in the runs without t_eval, and not in those with it)
     #[serde(default)]
     pub first_step: Option<f64>,
+    /// long run: at least this many steps (max_step = span/N, RK4: first_step = span/N), no step budget given;
+    /// only the option sets containing dense_output are compared with the plain run
+    #[serde(default)]
+    pub long_run: Option<u32>,
 }
 
 struct One {
@@ -46,13 +50,23 @@ fn one(c: &Case, prob: &Prob, evs: &[EvSpec], t_eval: Option<Vec<f64>>, dense: b
     instr.dir = sp.dir();
     instr.use_jac = c.analytic_jac;
     instr.hash_calls = true;
+    if c.long_run.is_some() {
+        instr.budget = 40_000_000;
+    }
     let opts = RunOpts {
         method: c.method,
         rtol: c.rtol.fit(n),
         atol: c.atol.fit(n),
-        first_step: if c.method == Meth::RK4 { None } else { c.first_step.map(|f| f * sp.len() * sp.dir()) },
-        max_step: c.max_step.map(|f| f * sp.len()),
-        max_steps: c.max_steps,
+        first_step: match (c.method, c.long_run) {
+            (Meth::RK4, Some(nl)) => Some(sp.len() / nl as f64 * sp.dir()),
+            (Meth::RK4, None) => None,
+            _ => c.first_step.map(|f| f * sp.len() * sp.dir()),
+        },
+        max_step: match c.long_run {
+            Some(nl) => Some(sp.len() / nl as f64),
+            None => c.max_step.map(|f| f * sp.len()),
+        },
+        max_steps: if c.long_run.is_some() { None } else { c.max_steps },
         t_eval,
         dense,
     };
@@ -98,6 +112,9 @@ pub fn check(c: &Case) -> Outcome {
         if use_ev && evs.is_empty() {
             continue;
         }
+        if c.long_run.is_some() && !(mask == 2 || mask == 3) {
+            continue;
+        }
         let o = match one(c, &prob, if use_ev { &evs } else { &none }, if use_te { Some(te.clone()) } else { None }, use_dense) {
             Ok(o) => o,
             Err(e) => return Outcome::viol(format!("{}: plain run returned Ok({}) but with options t_eval={} dense={} events={} the call gave {}", c.method.name(), status_name(p.status), use_te, use_dense, use_ev, e)),
@@ -125,7 +142,9 @@ pub fn check(c: &Case) -> Outcome {
             if a.to_bits() != sp.x0.to_bits() || (b - last).abs() > 1e-12 + tau(sp.x0, sp.xend, last) {
                 return Outcome::viol(format!("{}: dense span ({:e},{:e}) does not match the plain run's [{:e},{:e}]", tag, a, b, sp.x0, last));
             }
-            for (ti, yi) in p.t.iter().zip(&p.y) {
+            // (a long run is probed at about fifty of its samples: each sol() call scans the segments)
+            let stride = if c.long_run.is_some() { p.t.len() / 50 + 1 } else { 1 };
+            for (ti, yi) in p.t.iter().zip(&p.y).step_by(stride) {
                 match s.sol(*ti) {
                     Ok(v) => {
                         let tol = 1e-10 * (1.0 + inf_norm(yi));
@@ -144,7 +163,7 @@ pub fn check(c: &Case) -> Outcome {
         }
     }
     // repeatability of a fully-optioned call
-    if !evs.is_empty() {
+    if !evs.is_empty() && c.long_run.is_none() {
         let a = one(c, &prob, &evs, Some(te.clone()), true);
         let b = one(c, &prob, &evs, Some(te.clone()), true);
         if let (Ok(a), Ok(b)) = (a, b) {
@@ -158,8 +177,8 @@ pub fn check(c: &Case) -> Outcome {
             }
         }
     }
-    let nontrivial = (p.nrejct > 0 || p.naccpt >= 10) && subsets_checked >= 3;
-    Outcome::pass(format!("{}:{}", c.method.name(), status_name(p.status)), nontrivial, json!({"naccpt": p.naccpt, "nrejct": p.nrejct, "option_sets": subsets_checked, "t_eval_points": te.len(), "events": evs.len()}))
+    let nontrivial = (p.nrejct > 0 || p.naccpt >= 10) && subsets_checked >= if c.long_run.is_some() { 2 } else { 3 };
+    Outcome::pass(format!("{}:{}{}", c.method.name(), status_name(p.status), if c.long_run.is_some() { ":long-run" } else { "" }), nontrivial, json!({"naccpt": p.naccpt, "nrejct": p.nrejct, "option_sets": subsets_checked, "t_eval_points": te.len(), "events": evs.len()}))
 }
 
 pub fn strategy() -> BoxedStrategy<Case> {
@@ -173,9 +192,19 @@ pub fn strategy() -> BoxedStrategy<Case> {
         proptest::collection::vec(event_spec(6, false), 0..=3),
         proptest::option::weighted(0.2, fr(0.02, 0.5)),
         proptest::option::weighted(0.1, 3usize..60),
-        (prop_oneof![1 => Just(vec![]).boxed(), 1 => places(3).boxed()], proptest::option::weighted(0.3, log10(-3.0, -0.5))),
+        (prop_oneof![1 => Just(vec![]).boxed(), 1 => places(3).boxed()], proptest::option::weighted(0.3, log10(-3.0, -0.5)), proptest::option::weighted(0.001, 100_001u32..125_000)),
     )
-        .prop_map(|(prob, span, method, (rtol, atol), analytic_jac, t_eval, events, max_step, max_steps, (ev_places, first_step))| Case { prob, span, method, rtol, atol, analytic_jac, t_eval, events, max_step, max_steps, ev_places, first_step })
+        .prop_map(|(mut prob, span, method, (rtol, atol), analytic_jac, t_eval, events, max_step, max_steps, (ev_places, first_step, long_run))| {
+            if long_run.is_some() {
+                // keep the 100 000-step runs cheap: at most three components
+                let mut d = 0;
+                prob.blocks.retain(|b| { d += b.dim(); d <= 3 });
+                if prob.blocks.is_empty() {
+                    prob.blocks.push(Block::Real { lam: -0.5, u0: 1.0 });
+                }
+            }
+            Case { prob, span, method, rtol, atol, analytic_jac, t_eval, events, max_step, max_steps, ev_places, first_step, long_run }
+        })
         .boxed()
 }
 
@@ -187,7 +216,7 @@ pub fn run(ctx: &Ctx, known: &[Known]) -> Report {
     let stats = run_generated(ctx, "C12", "gen", &strategy, &check, cases, known);
     Report {
         id: "C12".into(),
-        rule: "cases = closed-form problems (n<=6) x spans x six methods x tolerances x analytic/FD Jacobian x generated t_eval and 0..3 non-terminal event functions x optional max_step/max_steps; each case runs the plain call, the 7 non-empty subsets of {t_eval, dense_output, events} and a repeat, and compares statistics, samples, dense output and a hash of every (t,y) argument passed to the right-hand side. Non-trivial = (>=1 rejected step or >=10 accepted steps) and at least 3 option sets compared. Distinct = distinct canonical JSON.".into(),
+        rule: "cases = closed-form problems (n<=6) x spans x six methods x tolerances x analytic/FD Jacobian x generated t_eval and 0..3 non-terminal event functions x optional max_step/max_steps; each case runs the plain call, the 7 non-empty subsets of {t_eval, dense_output, events} and a repeat, and compares statistics, samples, dense output and a hash of every (t,y) argument passed to the right-hand side. One case in a thousand is a long run (max_step = span/N with N > 100 000, no step budget; the option sets with dense_output are compared). Non-trivial = (>=1 rejected step or >=10 accepted steps) and at least 3 option sets compared. Distinct = distinct canonical JSON.".into(),
         assumptions: vec!["bit-identity of f64 values; dense span end compared with the plain run's last time to 1e-12 + 4 ulp".into()],
         min_nontrivial_frac: 0.4,
         stats,
